@@ -247,8 +247,16 @@ func chunk(r *rng.R, b []byte, mode int) string {
 
 // ---------------------------------------------------------------- case generators
 
+// genNew: a fresh buffer through NewBufferX or NewSizedBufferX(n)
+func genNew(r *rng.R) string {
+	if r.Chance(1, 3) {
+		return "news " + strconv.Itoa(r.PickInt(0, 1, 7, 64, 4096))
+	}
+	return "new"
+}
+
 func genRoundTrip(r *rng.R) corr.Case {
-	lines := []string{"new"}
+	lines := []string{genNew(r)}
 	var queue []string
 	n := r.Range(1, 10)
 	for i := 0; i < n; i++ {
@@ -332,7 +340,7 @@ func bytesOf(x byte, n int) []byte {
 }
 
 func genRewrite(r *rng.R) corr.Case {
-	lines := []string{"new"}
+	lines := []string{genNew(r)}
 	for i := r.Range(0, 3); i > 0; i-- {
 		lines = append(lines, genWrite(r))
 	}
@@ -402,6 +410,69 @@ func genStream(r *rng.R, garbage bool) corr.Case {
 	return corr.Case{Tag: tag, Lines: lines}
 }
 
+// genBig: values of 4 KiB … 256 KiB (1 MiB in thorough/search) as pattern tokens, through the buffer and through
+// streams chunked 1, 2, 4096, 65536 bytes or randomly; also cut just before the end.
+func genBig(r *rng.R, tier string) corr.Case {
+	sizes := []int{4095, 4096, 4097, 5000, 65535, 65536, 65537, 70000, 200000, 262144}
+	if tier != "quick" {
+		sizes = append(sizes, 1048576)
+	}
+	n := sizes[r.Intn(len(sizes))]
+	pat := fmt.Sprintf("p%d:%d", r.Intn(1000), n)
+	var w string
+	switch r.Intn(4) {
+	case 0:
+		w = "wraw " + pat
+	case 1:
+		w = fmt.Sprintf("wlstr %d %s", r.PickInt(n, n+1, 4294967295), pat)
+	default:
+		w = "wstr " + pat
+	}
+	lines := []string{genNew(r)}
+	var reads []string
+	add := func(w string) {
+		lines = append(lines, w)
+		reads = append(reads, readFor(r, w))
+	}
+	if r.Bool() {
+		add("wu32 " + strconv.FormatUint(genU(r, 32), 10))
+	}
+	add(w)
+	add("wstr " + showRawHex(genBytes(r, r.Range(0, 5))))
+	if r.Chance(1, 3) {
+		add(fmt.Sprintf("wstr p%d:%d", r.Intn(1000), r.PickInt(4096, 5000, 70000)))
+	}
+	switch r.Intn(5) {
+	case 0, 1: // buffer
+		lines = append(lines, reads...)
+		lines = append(lines, "len", "ru8")
+		return corr.Case{Tag: "big-buffer", Lines: lines}
+	case 2: // cut points around the end of the big value
+		var out []string
+		full := len(encode([]string{w}))
+		for _, k := range []int{4, 4095, 4096, 65536, full - 1, full} {
+			if k <= full {
+				out = append(out, fmt.Sprintf("tload %d %s", k, w), readFor(r, w), "len")
+			}
+		}
+		return corr.Case{Tag: "big-truncated", Lines: out}
+	}
+	// stream: fine chunkings only for the sizes the oracle's recursion depth affords
+	var ch string
+	switch {
+	case n <= 5000 && r.Chance(1, 2):
+		ch = "1"
+	case n <= 70000 && r.Chance(1, 3):
+		ch = "2"
+	default:
+		ch = r.Pick("4096", "65536", "4095", "r"+strconv.Itoa(r.Intn(100000)), "r"+strconv.Itoa(r.Intn(100000)), "1048576")
+	}
+	lines = append(lines, "tostream "+r.Pick("0", "0", "1")+" "+ch)
+	lines = append(lines, reads...)
+	lines = append(lines, "ru8")
+	return corr.Case{Tag: "big-stream", Lines: lines}
+}
+
 var junkTokens = []string{"", "x", "-", "--1", "-0", "00", "0x10", "1e3", "256", "65536", "4294967296", "18446744073709551616",
 	"99999999999999999999", "999999999999999999999", "-9223372036854775809", "-32769", "abc", "ABCD", "0g", "123", "+1", "1048577", "-1048577", ".", ","}
 
@@ -468,6 +539,33 @@ func fixedCases() []corr.Case {
 		c("fixed", "sload 0 ffffffff00", "rstr", "rlstr 7", "ru8"),
 		c("fixed", "sload 0 01000001", "rstr"),
 	}
+	out = append(out,
+		// constructors: a fresh buffer is empty, whatever its capacity
+		c("constructors", "news 8", "len", "bytes", "wu8 7", "ru8", "len", "ru8"),
+		c("constructors", "news 0", "wstr 6162", "rstr", "len"),
+		c("constructors", "news 4096", "wu32 1", "wu16 2", "ru32", "ru16", "len"),
+		c("constructors", "news 1", "wu8 7", "tostream 0 1", "ru8", "ru8"),
+		c("constructors", "new", "len", "bytes", "wu8 7", "ru8", "len"),
+		c("constructors", "load 07", "ru8", "len", "ru8"),
+		c("constructors", "load 0700", "ru8", "ru8", "len"),
+		// sizes: 4 KiB … 256 KiB through the buffer and through streams
+		c("big-fixed", "new", "wstr p1:5000", "wu8 9", "rstr", "ru8", "len"),
+		c("big-fixed", "news 64", "wstr p2:65535", "wstr p3:65536", "wraw p4:70000", "rstr", "rstr", "readn 70000", "len"),
+		c("big-fixed", "new", "wstr p5:200000", "wu8 9", "tostream 0 4096", "rstr", "ru8", "ru8"),
+		c("big-fixed", "new", "wstr p6:70000", "wu8 9", "tostream 0 65536", "rstr", "ru8"),
+		c("big-fixed", "new", "wstr p7:70000", "wu8 9", "tostream 1 2", "rstr", "ru8"),
+		c("big-fixed", "new", "wstr p8:5000", "wu8 9", "tostream 0 1", "rstr", "ru8"),
+		c("big-fixed", "new", "wlstr 65536 p9:65536", "wu8 9", "tostream 0 r12345", "rlstr 65536", "ru8"),
+		c("big-fixed", "new", "wraw p10:200000", "tostream 1 r7", "readn 200000", "ru8"),
+		c("big-fixed", "tload 65539 wstr p11:65536", "rstr", "len", "tload 65540 wstr p11:65536", "rstr", "len"),
+		// length fields of 2^24 … 2^32-1 on a stream: executed in a memory-capped child process (T-observable)
+		c("huge-prefix-probe", "sload 0 ffffffff010203", "xrstr"),
+		c("huge-prefix-probe", "sload 0 ffffff7f010203", "xrstr"),
+		c("huge-prefix-probe", "sload 0 00000002010203", "xrstr"),
+		c("huge-prefix-probe", "sload 0 00000080,0102", "xrlstr 4294967295"),
+		c("huge-prefix-probe", "sload 0 ffffffff0102", "xrlstr 65536"),
+		c("huge-prefix-probe", "sload 0 03000000616263ff", "xrstr"),
+	)
 	// every truncation point of one value of every type
 	for _, w := range []string{"wbool 1", "wu8 200", "wu16 513", "wi16 -2", "wu32 67305985", "wi32 -3", "wu64 578437695752307201", "wi64 -4",
 		"wf64 7ff8000000000001", "wvu64 18446744073709551615", "wvi64 -9223372036854775808", "wvu32 300", "wvi32 -129", "wstr 616263", "wstr -",
@@ -502,6 +600,9 @@ func spec() corr.Spec {
 			return 250000 // search
 		},
 		Gen: func(r *rng.R, tier string, i int) corr.Case {
+			if (tier == "quick" && i%400 == 399) || (tier != "quick" && i%150 == 149) {
+				return genBig(r, tier)
+			}
 			switch i % 10 {
 			case 0, 1, 2:
 				return genRoundTrip(r)
@@ -521,7 +622,8 @@ func spec() corr.Spec {
 			}
 			return genGarbage(r)
 		},
-		Run: runCase,
+		Run:   runCase,
+		TOnly: func(line string) bool { return strings.HasPrefix(line, "xr") },
 		NonTrivial: func(c corr.Case, r corr.Result) bool {
 			for _, o := range r.Outs {
 				if strings.HasPrefix(o, "v=") {
@@ -533,12 +635,17 @@ func spec() corr.Spec {
 		Rule: "scripts over the real bytex.BufferX / bytex.ReaderX: (roundtrip) 1..10 boundary-biased typed writes then the same typed reads, FIFO-interleaved; " +
 			"(truncated) every truncation point of an encoding; (garbage) arbitrary / cut / varint-continuation bytes under random typed reads; " +
 			"(rewrite) ReWrite/ReWriteU32 at in-range, edge and out-of-range positions; (stream) the same bytes and read program under 1-byte, whole and random chunkings, " +
-			"with and without EOF-with-data; (malformed) ill-formed lines. Non-trivial = at least one read returned a value; distinct = distinct script text",
+			"with and without EOF-with-data; (malformed) ill-formed lines; (constructors) buffers made by NewBufferX, NewSizedBufferX(0|1|7|64|4096), NewReadableBufferX, readers by NewReaderX; " +
+			"(big) strings / raw bytes of 4095..262144 bytes (1 MiB beyond quick) through the buffer, cut near the end, and through streams chunked 1, 2, 4095, 4096, 65536, 1 MiB or randomly; " +
+			"(huge-prefix-probe, T) length fields 2^25..2^32-1 read by the real ReaderX in a memory-capped child process. Non-trivial = at least one read returned a value; distinct = distinct script text",
 		Assumptions: []string{
 			"encoding/binary (LittleEndian put/get, PutUvarint/ReadUvarint/PutVarint/ReadVarint), bytes.Buffer (Read/Next/ReadByte/Write/Bytes) and io.ReadFull behave as modelled (validated by the correspondence runs, not proved)",
 			"math.Float64bits / math.Float64frombits are mutually inverse bijections that keep NaN payloads (float64 values are identified with their 64-bit pattern)",
 			"strings longer than 2^32-1 bytes are outside the correspondence (the model keeps the uint32 truncation of the length; the round-trip theorem assumes length < 2^32)",
-			"an io.Reader is modelled as a finite list of chunks: each Read delivers at most the first chunk, (0, nil) for an empty chunk, io.EOF after the last one or (eager) together with it",
+			"an io.Reader is modelled as a finite list of chunks: each Read delivers at most the first chunk, (0, nil) for an empty chunk, io.EOF after the last one or (eager) together with it; readers that fail with another error than io.EOF, or return (0, nil) forever (io.ReadFull then spins), are outside the quantifier of the stream theorems and of the correspondence",
+			"generated stream scripts answer `guard:huge` without executing a ReaderX string read whose pending length field exceeds 2^24 (ReadN would make([]byte, n) for it); the range 2^24..2^32-1 is exercised only by the fixed `xrstr`/`xrlstr` probes, which run the real read in a child process capped at 4 GiB of address space (observed: up to 2 GiB the read answers as the model says after allocating that much; 4 GiB-1 kills the process with the runtime's fatal out-of-memory — an abort, not an error value; uncapped it stalls for about 90 s here)",
+			"Go's int is 64 bits wide (regenerated as Nv.Gen.C10.intBits from strconv.IntSize): on a 32-bit int a length field >= 2^31 would make buffer.Next panic (Lean witness witness_int32_panics)",
+			"values up to 1 MiB are exercised (pattern tokens p<seed>:<n>, results printed as length + digest); fine chunkings (1 and 2 bytes) only up to 5 000 / 70 000 bytes because the oracle's chunk loop recurses per chunk",
 		},
 		Trusted: []string{
 			"go/cmd/c10 chunkReader (the fragmenting io.Reader of the harness) and the `guard:huge` rule that skips stream string reads whose pending length field exceeds 2^24",
